@@ -300,15 +300,13 @@ def copyRef : Nat → Heap → Ref → Res Ref
           match copySVWith (copyRef fuel) h orb with
           | (h, .error e) => (h, .error e)
           | (h, .ok o') =>
-            match setFormTo h o' "cartesian" with
-            | (h, .error e) => (h, .error e)
-            | (h, .ok ()) =>
-              match getSV h o' with
-              | none => (h, .error .bad)
-              | some s' =>
-                let h := write h s'.data (.dict (insert "cov" .none s'.items))
-                let (h, n) := alloc h (.cov true cv cfr o' o.frame)
-                (h, .ok (.addr n))
+            match getSV h o' with
+            | none => (h, .error .bad)
+            | some s' =>
+              let h := write h s'.buf (.buf (mkConv s'.form "cartesian" s'.val))
+              let h := write h s'.data (.dict (insert "cov" .none (insert "form" (.form "cartesian") s'.items)))
+              let (h, n) := alloc h (.cov true cv cfr o' o.frame)
+              (h, .ok (.addr n))
       | some (.sv _ _ _ _) =>
         match copySVWith (copyRef fuel) h a with
         | (h, .error e) => (h, .error e)
@@ -370,15 +368,13 @@ def setCov (h : Heap) (a : Nat) (k : Nat) : Res Unit :=
     match copySV h a with
     | (h, .error e) => (h, .error e)
     | (h, .ok o) =>
-      match setFormTo h o "cartesian" with
-      | (h, .error e) => (h, .error e)
-      | (h, .ok ()) =>
-        match getSV h o with
-        | none => (h, .error .bad)
-        | some s' =>
-          let h := write h s'.data (.dict (insert "cov" .none s'.items))
-          let (h, c) := alloc h (.cov true (.init k) s.frame o s.frame)
-          (write h s.data (.dict (insert "cov" (.addr c) s.items)), .ok ())
+      match getSV h o with
+      | none => (h, .error .bad)
+      | some s' =>
+        let h := write h s'.buf (.buf (mkConv s'.form "cartesian" s'.val))
+        let h := write h s'.data (.dict (insert "cov" .none (insert "form" (.form "cartesian") s'.items)))
+        let (h, c) := alloc h (.cov true (.init k) s.frame o s.frame)
+        (write h s.data (.dict (insert "cov" (.addr c) s.items)), .ok ())
 
 /-- `sv.maneuvers.append(<maneuver t>)` (the getter creates the list when it is missing) -/
 def addMan (h : Heap) (a : Nat) (t : Nat) : Res Unit :=
